@@ -363,6 +363,8 @@ use vharness::common::{glist, gn, gz, Case, Rng};
 #[derive(Clone, Debug)]
 pub enum Op {
     Create { p: usize, x: u64, t: i64 },
+    /// ONE mutation that creates k rows (ids x0 .. x0+k-1, all with the same date)
+    CreateMany { p: usize, x0: u64, k: u64, t: i64 },
     Update { p: usize, x: u64, t: i64 },
     Delete { p: usize, x: u64, t: i64 },
     /// mutate { ns.Doc{ id:x refs:[{id:y}] } }
@@ -387,6 +389,7 @@ pub struct StepRec {
     pub op: Op,
     pub flag: i64,
     pub sig: Vec<u8>,     // signature produced by a local write (empty otherwise)
+    pub sigs: Vec<Vec<u8>>, // signatures of the rows of a CreateMany
     pub days: Vec<i64>,   // days a pull exchanged
     pub dump: Dump,       // dump of the touched peer after the step
     pub batches: usize,   // data-carrying answers of a pull (deletion records + rows)
@@ -438,7 +441,7 @@ impl<'a> Runner<'a> {
     /// last dump shown by peer p
     pub fn last_dump(&self, p: usize) -> Dump {
         for s in self.steps.iter().rev() {
-            let q = match s.op { Op::Create { p, .. } | Op::Update { p, .. } | Op::Delete { p, .. } | Op::AddRef { p, .. } | Op::DelRef { p, .. } => p, Op::Pull { dst, .. } => dst };
+            let q = match s.op { Op::Create { p, .. } | Op::CreateMany { p, .. } | Op::Update { p, .. } | Op::Delete { p, .. } | Op::AddRef { p, .. } | Op::DelRef { p, .. } => p, Op::Pull { dst, .. } => dst };
             if q == p { return s.dump.clone(); }
         }
         Dump::default()
@@ -446,7 +449,7 @@ impl<'a> Runner<'a> {
     pub fn next_id(&self) -> u64 { self.ids.len() as u64 + 1 }
 
     pub async fn exec(&mut self, op: Op) -> &StepRec {
-        let mut rec = StepRec { op: op.clone(), flag: 0, sig: vec![], days: vec![], dump: Dump::default(), batches: 0, natural: true, pull_ok: true };
+        let mut rec = StepRec { op: op.clone(), flag: 0, sig: vec![], sigs: vec![], days: vec![], dump: Dump::default(), batches: 0, natural: true, pull_ok: true };
         match op {
             Op::Create { p, x, t } => {
                 assert_eq!(x, self.next_id());
@@ -460,6 +463,24 @@ impl<'a> Runner<'a> {
                 self.ids.push(node.id);
                 rec.sig = node._signature.clone();
                 rec.flag = 1;
+                rec.natural = self.net.barrier(p).await;
+                rec.dump = self.dump(p).await;
+            }
+            Op::CreateMany { p, x0, k, t } => {
+                assert_eq!(x0, self.next_id());
+                verif_clock::set(t);
+                let mut pa = Parameters::default();
+                pa.add("room_id", b64(&self.room)).unwrap();
+                let mut q = String::from("mutate {");
+                for i in 0..k { q.push_str(&format!(" r{}: ns.Doc{{ room_id:$room_id a:\"m{}\" }}", i, i)); }
+                q.push_str(" }");
+                let r = self.net.peers[p].db.mutate_raw(&q, Some(pa)).await.expect("create many");
+                for e in &r.mutate_entities {
+                    let node = e.node_to_mutate.node.as_ref().unwrap();
+                    self.ids.push(node.id);
+                    rec.sigs.push(node._signature.clone());
+                }
+                rec.flag = k as i64;
                 rec.natural = self.net.barrier(p).await;
                 rec.dump = self.dump(p).await;
             }
@@ -560,6 +581,7 @@ impl<'a> Runner<'a> {
         let mut sigs: Vec<Vec<u8>> = vec![];
         for s in &self.steps {
             if !s.sig.is_empty() { sigs.push(s.sig.clone()); }
+            for g in &s.sigs { sigs.push(g.clone()); }
             for n in &s.dump.nodes { sigs.push(n.2.clone()); }
         }
         let rk = ranks(&sigs);
@@ -569,6 +591,7 @@ impl<'a> Runner<'a> {
             let sg = if s.sig.is_empty() { 0 } else { rk[&s.sig] };
             terms.push(match &s.op {
                 Op::Create { p, x, t } => format!("Create {} {} {} {}", gn(*p as u64), gn(*x), gz(*t), gn(sg)),
+                Op::CreateMany { p, x0, t, .. } => format!("CreateMany {} {} {} {}", gn(*p as u64), gn(*x0), gz(*t), glist(&s.sigs.iter().map(|g| gn(rk[g])).collect::<Vec<_>>())),
                 Op::Update { p, x, t } => format!("Update {} {} {} {}", gn(*p as u64), gn(*x), gz(*t), gn(sg)),
                 Op::Delete { p, x, t } => format!("Delete {} {} {}", gn(*p as u64), gn(*x), gz(*t)),
                 Op::AddRef { p, x, y, t } => format!("AddRef {} {} {} {} {}", gn(*p as u64), gn(*x), gn(*y), gz(*t), gn(sg)),
@@ -594,7 +617,7 @@ impl<'a> Runner<'a> {
         let coq = format!("{} {} {} {}", ctor, gn(self.n as u64), glist(&terms[..k]), glist(&terms[k..]));
         let mut creates = 0; let mut updates = 0; let mut deletes = 0; let mut pulls = 0; let mut moved = 0; let mut unnatural = 0; let mut failed = 0; let mut maxb = 0; let mut refadds = 0; let mut refdels = 0;
         for s in &self.steps {
-            match s.op { Op::Create { .. } => creates += 1, Op::Update { .. } => updates += 1, Op::Delete { .. } => deletes += 1, Op::AddRef { .. } => refadds += 1, Op::DelRef { .. } => refdels += 1, Op::Pull { .. } => { pulls += 1; if s.flag > 0 { moved += 1; } } }
+            match s.op { Op::Create { .. } => creates += 1, Op::CreateMany { k, .. } => creates += k as usize, Op::Update { .. } => updates += 1, Op::Delete { .. } => deletes += 1, Op::AddRef { .. } => refadds += 1, Op::DelRef { .. } => refdels += 1, Op::Pull { .. } => { pulls += 1; if s.flag > 0 { moved += 1; } } }
             if !s.natural { unnatural += 1; }
             if !s.pull_ok { failed += 1; }
             if s.batches > maxb { maxb = s.batches; }
@@ -748,4 +771,16 @@ pub async fn gen_ref_step(r: &mut Runner<'_>, p: usize, t: i64, rng: &mut Rng) {
         if y == x { y = *known.iter().find(|k| **k != x).unwrap(); }
         r.exec(Op::AddRef { p, x, y, t }).await;
     }
+}
+
+/// one pull that fetches exactly `k` rows of one entity for one day, one of them carrying a reference:
+/// synchronise_day cuts the rows to fetch into batches of 2048 and asks Query::Nodes / Query::Edges per
+/// batch; k = 2048 or 4096 leaves no rest for the request after the loop
+pub async fn batch_boundary_history(r: &mut Runner<'_>, k: u64) {
+    let t = T0 + 1000;
+    r.exec(Op::CreateMany { p: 0, x0: 1, k: k - 1, t }).await;
+    // the k-th row of the day is the source row of a reference, re-dated on the same day
+    r.exec(Op::AddRef { p: 0, x: 1, y: 2, t: t + 1000 }).await;
+    r.exec(Op::Create { p: 0, x: k, t: t + 2000 }).await;
+    r.exec(Op::Pull { dst: 1, src: 0, t: t + 3000 }).await;
 }
